@@ -89,15 +89,33 @@ Definition max_gain (g : graph) : option Z :=
   | r :: t => Some (fold_left (fun a r' => Z.max a (row_weight r')) t (row_weight r))
   end.
 
-(* gain table: bucket i holds the free vertices of gain i - mpg; HashSet semantics *)
-Definition table := list (list nat).
+(* Gain table `gain_to_vertex`: in the code a boxed slice of 2*mpg+1 HashSets, the set of gain
+   g at index g + mpg; an index outside the slice panics.  Here: the range test of the index
+   ([tbl_idx]) and the NON-EMPTY buckets only, as an association list from the gain to its set,
+   kept in DESCENDING gain order (a slice of a million empty sets is not executable under
+   vm_compute; an absent gain = an empty set).  HashSet semantics for insert / remove. *)
+Definition table := list (Z * list nat).
 Definition bucket_insert (b : list nat) (v : nat) : list nat := if existsb (Nat.eqb v) b then b else v :: b.
 Definition bucket_remove (b : list nat) (v : nat) : list nat := filter (fun u => negb (Nat.eqb u v)) b.
-Definition tbl_idx (mpg gain : Z) : option nat :=
-  let i := gain + mpg in if 0 <=? i then Some (Z.to_nat i) else None.
-Definition tbl_upd (t : table) (i : option nat) (f : list nat -> list nat) : option table :=
+Fixpoint tget (t : table) (k : Z) : list nat :=
+  match t with
+  | [] => []
+  | (k', b) :: t' => if k' =? k then b else tget t' k
+  end.
+Fixpoint tset (t : table) (k : Z) (b : list nat) : table :=
+  match t with
+  | [] => [(k, b)]
+  | (k', b') :: t' =>
+    if k' =? k then (k, b) :: t'
+    else if k' <? k then (k, b) :: t
+    else (k', b') :: tset t' k b
+  end.
+(* gain_table_idx + the bounds check of the slice: Some gain iff 0 <= gain + mpg < 2*mpg+1 *)
+Definition tbl_idx (mpg gain : Z) : option Z :=
+  let i := gain + mpg in if (0 <=? i) && (i <? 2 * mpg + 1) then Some gain else None.
+Definition tbl_upd (t : table) (i : option Z) (f : list nat -> list nat) : option table :=
   match i with
-  | Some i => match nth_opt t i with Some b => Some (set_nth t i (f b)) | None => None end
+  | Some k => Some (tset t k (f (tget t k)))
   | None => None
   end.
 
@@ -176,9 +194,9 @@ Fixpoint find_top (ws : list Z) (p : list N) (pw : Z * Z) (cap : Z) (bs : list (
     end
   end.
 
-(* gain_to_vertex.iter().rev().zip((-mpg..=mpg).rev()) *)
-Definition buckets_desc (mpg : Z) (t : table) : list (Z * list nat) :=
-  rev (combine (map (fun i => Z.of_nat i - mpg) (seq 0 (length t))) t).
+(* gain_to_vertex.iter().rev().zip((-mpg..=mpg).rev()): the buckets from the highest gain
+   down, each with its gain (the empty ones, which the scan skips, are not stored) *)
+Definition buckets_desc (mpg : Z) (t : table) : list (Z * list nat) := t.
 
 (* the loop over the neighbours of the moved vertex *)
 Fixpoint upd_nbrs (mpg : Z) (p : list N) (init : N) (r : row) (v2g : list (option Z)) (t : table)
@@ -210,7 +228,7 @@ Fixpoint upd_nbrs (mpg : Z) (p : list N) (init : N) (r : row) (v2g : list (optio
 Definition choice_ok (ws : list Z) (st : fm_st) (mpg cap gn mint : Z) (v : nat) (gv : Z) : bool :=
   (gv =? gn)
   && match tbl_idx mpg gn with
-     | Some i => match nth_opt (s_g2v st) i with Some b => existsb (Nat.eqb v) b | None => false end
+     | Some k => existsb (Nat.eqb v) (tget (s_g2v st) k)
      | None => false
      end
   && match feas ws (s_p st) (s_pw st) cap v with Some (Some t) => t =? mint | _ => false end.
@@ -310,7 +328,7 @@ Fixpoint fm_passes (cfg : fm_cfg) (g : graph) (ws : list Z) (mpg cap : Z) (fuel 
       | (rc, moves) :: orc' =>
         if negb (rc =? best) then Ok (FmBad 4)
         else
-          match init_tables p mpg 0 g p (repeat [] (Z.to_nat (2 * mpg + 1))) with
+          match init_tables p mpg 0 g p [] with
           | None => Panic 2
           | Some (v2g, t) =>
             let st0 := {| s_p := p; s_pw := pw; s_v2g := v2g; s_g2v := t; s_cur := best; s_best := best;
